@@ -11,6 +11,7 @@
 //	                                                  WarmUpPeriodSec p, WarmUpColdFactor c; control behaviour cb
 //	                                                  (0 / absent: Reject, 1: Throttling with MaxQueueingTimeMs q)
 //	new   {tr, kind:"mem", low, high, lw, hw [, cb, q]}    one MemoryAdaptive rule on a fresh resource (same cb, q)
+//	      (both: optional si = StatIntervalInMs of the rule; absent / 0 = the default statistic of the resource, 1000 ms)
 //	reload {same fields as new, via}                  the rule of the resource is replaced now: flow.LoadRules (via absent /
 //	                                                  "set") or flow.LoadRulesOfResource (via "res"); same kind, same resource
 //	tick  {d}                                         clock += d
@@ -51,7 +52,8 @@ type run struct {
 	epoch int64
 	name  string
 	kind  string
-	thr   bool // throttling control behaviour
+	thr   bool  // throttling control behaviour
+	si    int64 // StatIntervalInMs of the rule in force
 }
 
 // one request; returns admitted / panicked
@@ -116,17 +118,22 @@ func main() {
 			hx.Fatal("trace %d: cb must be 0 (reject) or 1 (throttling, with q)", r.tr)
 		}
 		r.thr = cb == 1
+		si := int64(0) // StatIntervalInMs (0 / absent: the default statistic of the resource, 1000 ms)
+		if _, ok := s["si"]; ok {
+			si = hx.Int(s, "si")
+		}
+		r.si = si
 		switch r.kind {
 		case "warmup":
 			tn, td, p, c := hx.Int(s, "tn"), hx.Int(s, "td"), hx.Int(s, "p"), hx.Int(s, "c")
 			return &flow.Rule{Resource: r.name, TokenCalculateStrategy: flow.WarmUp, ControlBehavior: behavior, MaxQueueingTimeMs: uint32(q),
-					Threshold: float64(tn) / float64(td), WarmUpPeriodSec: uint32(p), WarmUpColdFactor: uint32(c)},
-				hx.M{"tn": tn, "td": td, "p": p, "c": c, "cb": cb, "q": q}
+					Threshold: float64(tn) / float64(td), WarmUpPeriodSec: uint32(p), WarmUpColdFactor: uint32(c), StatIntervalInMs: uint32(si)},
+				hx.M{"tn": tn, "td": td, "p": p, "c": c, "cb": cb, "q": q, "si": si}
 		case "mem":
 			low, high, lw, hw := hx.Int(s, "low"), hx.Int(s, "high"), hx.Int(s, "lw"), hx.Int(s, "hw")
 			return &flow.Rule{Resource: r.name, TokenCalculateStrategy: flow.MemoryAdaptive, ControlBehavior: behavior, MaxQueueingTimeMs: uint32(q),
-					LowMemUsageThreshold: low, HighMemUsageThreshold: high, MemLowWaterMarkBytes: lw, MemHighWaterMarkBytes: hw},
-				hx.M{"low": low, "high": high, "lw": lw, "hw": hw, "cb": cb, "q": q}
+					LowMemUsageThreshold: low, HighMemUsageThreshold: high, MemLowWaterMarkBytes: lw, MemHighWaterMarkBytes: hw, StatIntervalInMs: uint32(si)},
+				hx.M{"low": low, "high": high, "lw": lw, "hw": hw, "cb": cb, "q": q, "si": si}
 		}
 		hx.Fatal("unknown kind %q", r.kind)
 		return nil, nil
@@ -256,7 +263,11 @@ func main() {
 			flush()
 			emitTick()
 		case "probe":
-			clk.AdvanceMs(3000)
+			if r.si+1000 > 3000 {
+				clk.AdvanceMs(r.si + 1000) // (a statistic window longer than two seconds must have emptied as well)
+			} else {
+				clk.AdvanceMs(3000)
+			}
 			mem, n := hx.Int(s, "mem"), hx.Int(s, "n")
 			system_metric.SetSystemMemoryUsage(mem)
 			k := int64(0)
